@@ -33,6 +33,16 @@ func c11Gen(g *G) {
 	g.Emit("c11.run o ds:150:2;g0;w1;n2005;r0/2006;w2;n2007;a0", "slow-store")
 	g.Emit("c11.run o,o g0+1;w2;fk:1;c(a0,r1/2000);w3;a1", "ack-fault-before-rotation-in-container")
 	g.Emit("c11.run o,o,o g0+1+2;w3;fk:2;c(u,a0,r1/2000,r2/2000);w5;a1;a2", "ack-fault-before-rotation-in-container")
+	// the same on the repository's FILE session store (plan prefix SF: session.NewFromFile on a file left by an
+	// earlier run; after every Store an independent reader looks into the file): two and more salt announcements
+	// in one run — rotations, new_session_created, both, a refused and a slow write in between
+	g.Emit("c11.run o SF;g0;w1;r0/555;w2;a0", "file-store")
+	g.Emit("c11.run o,o SF;g0+1;w2;r0/555;w3;r1/777;w4;a0;a1", "file-store")
+	g.Emit("c11.run o,o,o SF;g0+1+2;w3;a1;r0/601;w4;r0/602;w5;r0/603;w6;n9;a0;a2", "file-store")
+	g.Emit("c11.run o SF;n2001;n2002;g0;w1;r0/2003;w2;a0;n2004", "file-store")
+	g.Emit("c11.run o,vl,b SF;g0+1+2;w3;c(r0/2000,r1/2000,r2/2000);w6;a2;a0;a1", "file-store")
+	g.Emit("c11.run o,o SF;fs:1;g0+1;w2;r0/2000;w3;r1/2001;w4;n2005;a0;a1", "file-store")
+	g.Emit("c11.run o,o SF;ds:120:1;g0+1;w2;r0/2001;w3;r1/2002;w4;a0;a1", "file-store")
 	nb := g.N(20, 400)
 	for i := 0; i < nb; i++ {
 		k := 2 + r.Intn(5)
@@ -59,6 +69,9 @@ func c11Gen(g *G) {
 			plan = append(plan, fmt.Sprintf("w%d", seen))
 		}
 		plan = append(plan, rsAnswerPlan(r, rsPerm(r, k), []string{"p"})...)
+		if r.Bool() {
+			plan = append([]string{"SF"}, plan...)
+		}
 		g.Emit(fmt.Sprintf("c11.run %s %s", strings.Join(kinds, ","), strings.Join(plan, ";")), "burst-same-salt-random")
 	}
 	n := g.N(60, 1500)
@@ -109,7 +122,12 @@ func c11Gen(g *G) {
 			}
 		}
 		plan = append(plan, rsAnswerPlan(r, rest, []string{"p"})...)
-		g.Emit(fmt.Sprintf("c11.run %s %s", strings.Join(kinds, ","), strings.Join(plan, ";")), "rotations", fmt.Sprintf("rotations=%d", rot))
+		store := "store=memory"
+		if r.Bool() {
+			plan = append([]string{"SF"}, plan...)
+			store = "store=file"
+		}
+		g.Emit(fmt.Sprintf("c11.run %s %s", strings.Join(kinds, ","), strings.Join(plan, ";")), "rotations", fmt.Sprintf("rotations=%d", rot), store)
 	}
 }
 
